@@ -29,13 +29,19 @@ func (o *Outcome) stat(k string, n int64) {
 	o.Stats[k] += n
 }
 
-// drawSchedule draws the child's schedule tape and preemption bias.
+// drawSchedule draws the child's schedule tape and preemption bias. The schedule is one
+// draw on the parent's tape (a sub-seed expanded here), so that a case's tape stays short
+// and shrinks well; sub-seed 0 is the all-zero schedule: always continue with the goroutine
+// that ran last, lowest operation first.
 func drawSchedule(tape *sim.Tape) ([]uint64, int) {
 	stick := []int{0, 1, 9}[tape.Draw(3)]
-	n := 96
-	vals := make([]uint64, n)
-	for i := range vals {
-		vals[i] = uint64(tape.Draw(1 << 16))
+	sub := uint64(tape.Draw(1 << 30))
+	vals := make([]uint64, 128)
+	if sub != 0 {
+		t := sim.NewTape(sub, "cli-schedule", 0)
+		for i := range vals {
+			vals[i] = uint64(t.Draw(1 << 16))
+		}
 	}
 	return vals, stick
 }
